@@ -6,9 +6,14 @@ use std::path::{Path, PathBuf};
 use std::process::{Child, Command, Stdio};
 use std::time::{Duration, Instant};
 
-pub const SHIM: &str = "/verif/bin/libsimshim.so";
-pub const BIN_DIR: &str = "/verif/bin";
-pub const TOOLS_DIR: &str = "/verif/target/debug";
+/// Where the shim / fake ps (`bin`) and vforc / flagdrv (`tools`) live. VERIF_FROZEN=<dir> points both at a
+/// frozen copy (<dir>/bin, <dir>/tools) so that a long run is not disturbed by rebuilds of /verif/target.
+pub fn bin_dir() -> String {
+    std::env::var("VERIF_FROZEN").map(|d| format!("{d}/bin")).unwrap_or_else(|_| "/verif/bin".into())
+}
+pub fn tools_dir() -> String {
+    std::env::var("VERIF_FROZEN").map(|d| format!("{d}/tools")).unwrap_or_else(|_| "/verif/target/debug".into())
+}
 
 pub fn scratch_base() -> PathBuf {
     let p = PathBuf::from(format!("/dev/shm/vsim/{}", std::process::id()));
@@ -59,9 +64,9 @@ pub struct Spec {
 pub fn command(spec: &Spec) -> Command {
     let mut c = Command::new(&spec.exe);
     c.args(&spec.args).current_dir(&spec.cwd).env_clear();
-    c.env("PATH", format!("{BIN_DIR}:/usr/bin:/bin"));
+    c.env("PATH", format!("{}:/usr/bin:/bin", bin_dir()));
     c.env("HOME", &spec.home);
-    c.env("LD_PRELOAD", SHIM);
+    c.env("LD_PRELOAD", format!("{}/libsimshim.so", bin_dir()));
     c.env("NO_COLOR", "1");
     // process/thread creation is the bottleneck in this sandbox (~190 clones/s machine-wide): forc compiles on
     // its main thread, so one idle runtime worker instead of sixteen changes nothing it does
